@@ -8,8 +8,13 @@ tree (modify kept the cache of the former time array; fixed).
 """
 from datetime import datetime, timedelta
 
+from fractions import Fraction
+
 import numpy as np
 
+from .. import core
+
+EPOCH = datetime(2020, 1, 1)
 REF0 = datetime(2020, 3, 1, 12, 0, 0)
 TOL = 2e-6
 
@@ -111,7 +116,58 @@ def play(case):
     return fails
 
 
-def run_proc(chk):
+def secs(d):
+    """datetime -> exact seconds since EPOCH (microsecond resolution)"""
+    td = d - EPOCH
+    return Fraction(td.days * 86400 + td.seconds) + Fraction(td.microseconds, 10 ** 6)
+
+
+def observed_state(ts):
+    ref = None if ts.dtg_ref is None else core.rat(secs(ts.dtg_ref))
+    cache = getattr(ts, "_dtg_time", None)
+    c = "-" if cache is None else ",".join(core.rat(secs(v)) for v in cache)
+    t = ",".join(core.rat(Fraction(float(v))) for v in ts.t)
+    st = "-" if ref is None or len(ts.t) == 0 else core.rat(secs(ts.dtg_start))
+    en = "-" if ref is None or len(ts.t) == 0 else core.rat(secs(ts.dtg_end))
+    return ";".join([ref if ref is not None else "-", t, c, st, en])
+
+
+def model_case(case):
+    """-> (model line, list of observed states) for the histories the Lean model covers (no resampling), or None"""
+    if any(op[0] == "resample" for op in case["ops"]):
+        return None
+    ts = build(case)
+    kind = "S" if case["ctor"] == "stamps" else "F"
+    if kind == "S":
+        first = [core.rat(secs(v)) for v in ts.dtg_time]
+        head = "dtg.runx S - %s |" % " ".join(first)
+    else:
+        head = "dtg.runx F %s %s |" % (core.rat(secs(REF0)), " ".join(core.rat(Fraction(float(v))) for v in ts.t))
+    obs, toks = [observed_state(ts)], []
+    for op in case["ops"]:
+        if len(ts.t) < 4:
+            break
+        if op[0] == "window":
+            a, b = ts.t[0] + op[1] * (ts.t[-1] - ts.t[0]), ts.t[0] + op[2] * (ts.t[-1] - ts.t[0])
+            toks.append("keep:" + "".join("1" if (a <= v <= b) else "0" for v in ts.t))
+        elif op[0] == "read":
+            toks.append("read")
+        elif op[0] == "setref":
+            toks.append("set:" + core.rat(secs(REF0 + timedelta(seconds=op[1]))))
+        elif op[0] == "setstart":
+            toks.append("set:-")
+        elif op[0] == "copy":
+            toks.append("copy")
+        try:
+            ts = apply(ts, op)
+        except Exception as e:
+            obs.append("exception " + type(e).__name__)
+            break
+        obs.append(observed_state(ts))
+    return head + " " + " ".join(toks), obs
+
+
+def run_proc(chk, drv=None):
     rng = chk.rng
     cases = [dict(kind="proc", ctor="float", n=10, t0=0.0, dt=1.0, ops=[["read"], ["window", 0.25, 0.75], ["read"]]),
              dict(kind="proc", ctor="stamps", n=12, t0=0.0, dt=0.5, ops=[["window", 0.25, 1.0], ["setstart"], ["read"]]),
@@ -128,6 +184,26 @@ def run_proc(chk):
         if any(op[0] in ("window", "resample") for op in case["ops"]) and any(op[0] == "read" for op in case["ops"]):
             chk.nontriv(("proc", case["ctor"], case["n"], str(case["ops"])))
     chk.sample(dict(stream="proc.history", input=cases[0]))
+    # correspondence with the Lean model extended by in-place processing (Qats.Dtg.runX; theorems cache_consistent_processing,
+    # processing_keeps_retained_instants): state (reference, relative times, cache, start, end) after every operation
+    if drv is not None:
+        lines, obs, owner = [], [], []
+        for case in cases:
+            try:
+                mc = model_case(case)
+            except Exception:
+                mc = None           # construction / reading failures are reported by the clauses above
+            if mc is not None:
+                lines.append(mc[0])
+                obs.append(mc[1])
+                owner.append(case)
+        outs = drv.run(lines)
+        for case, o, ob in zip(owner, outs, obs):
+            chk.count("dtg.runx")
+            mod = o.split()[1:] if o.startswith("ok") else [o]
+            if mod[:len(ob)] != ob:
+                k = next((i for i, (a, b) in enumerate(zip(mod, ob)) if a != b), min(len(mod), len(ob)))
+                chk.disagree("dtg.runx", dict(case, first_difference_at_state=k), mod[k:k + 1], ob[k:k + 1])
 
 
 def replay_proc(rp):
